@@ -766,3 +766,279 @@ def rule_R1(prog, fixture=False):
                     "no branch on equality of the reduced ratio returns the input parameter unchanged", func=f.name, extra={"props": ["C08"]})
     res.stats["documented_rejections"] = n
     return res
+
+
+# =================================================================================================
+# S2 LOST-UPDATE: a stateful member is advanced in place, not on a copy that is then dropped  (C06, C08, C12, C14, C20)
+def _stateful_classes(prog):
+    """repository classes with a non-const member function that writes a member (processors with history)"""
+    out = {}
+    for f in prog.functions.values():
+        if not f.cls or f.kind != "method" or f.get("const") or f.get("implicit") or f.get("static"):
+            continue
+        if any(k[0] == "field" and k[1] != "*" for (_, _, k) in f._writes()):
+            out.setdefault(f.cls, set()).add(f.usr)
+    # members that only forward to such a member of the same class
+    changed = True
+    while changed:
+        changed = False
+        for f in prog.functions.values():
+            if not f.cls or f.kind != "method" or f.get("const") or f.get("implicit") or f.usr in out.get(f.cls, ()):
+                continue
+            for c in f.get("calls", []):
+                if c["usr"] in out.get(f.cls, ()):
+                    out.setdefault(f.cls, set()).add(f.usr)
+                    changed = True
+                    break
+    return out
+
+
+def _s2_props(rel):
+    props = ["C06"]
+    if "lib/resample/" in rel or rel.endswith("resample.h"):
+        props.append("C08")
+    if rel.endswith("lms.h") or rel.endswith("rls.h"):
+        props.append("C12")
+    if rel.endswith("hilbert.cpp") or rel.endswith("hilbert.h") or rel.endswith("tuner.h"):
+        props.append("C14")
+    if "/audio/" in rel or rel.endswith("agc.cpp") or rel.endswith("agc.h"):
+        props.append("C20")
+    return props
+
+
+def rule_S2(prog, fixture=False):
+    from .rules_assume import canon
+    res = RuleResult("S2", "a local that names a stateful member object (a filter, delay line, averager held by the object or reached "
+                           "through a reference parameter) and on which a state-advancing member function is called is bound by "
+                           "reference, or is written back: otherwise the update is applied to a copy and the member keeps its old state "
+                           "- every call starts from the state of the first one")
+    stateful = _stateful_classes(prog)
+    n = 0
+    for f in sorted(prog.functions.values(), key=lambda f: (f.file, f.line, f.name)):
+        if f.get("implicit") or f.file.endswith("coverage.cc"):
+            continue
+        rel = prog.rel(f.file)
+        for v in f.walk():
+            if v.k != "VarDecl" or not v.decl or v.decl.get("k") != "local" or not v.c:
+                continue
+            ty = re.sub(r"^const\s+|\s*&+$|\s+const$", "", v.decl.get("dt") or v.type or "").strip()
+            cls = ty if ty in stateful else ("dsplib::" + ty if ("dsplib::" + ty) in stateful else None)
+            if cls is None or cls.startswith("dsplib::base_array<") or cls.startswith("dsplib::cmplx_t") or "slice_t" in cls:
+                continue          # value containers: a copy of an array is a value, not a processor with history
+            init = v.c[0].strip_all()
+            is_ref = (v.decl.get("dt") or v.type or "").rstrip().endswith("&")
+            src = init
+            while src.k in ("CXXConstructExpr", "MaterializeTemporaryExpr", "CXXBindTemporaryExpr", "ExprWithCleanups") and len(src.c) == 1:
+                src = src.c[0].strip_all()
+            # the source must be an lvalue that outlives the call: a member of *this, or a member of / the referent of a parameter
+            root = src
+            while root.k == "MemberExpr" and root.c:
+                root = root.c[0].strip_all()
+            rooted = (src.k == "MemberExpr" and (root.k == "CXXThisExpr" or (root.k == "DeclRefExpr" and root.decl and root.decl.get("k") == "parm"))) \
+                or (src.k == "DeclRefExpr" and src.decl and src.decl.get("k") == "parm" and src.id != init.id)
+            if not rooted or not src.get("lv", True):
+                continue
+            sty = re.sub(r"^const\s+|\s*&+$|\s+const$", "", src.type or "").strip()
+            if sty != ty and "dsplib::" + sty != cls and sty != cls:
+                continue          # constructed from something else (a size, a coefficient vector): not a copy of state
+            n += 1
+            key = "S2:%s:%s" % (fkey(f), v.decl["n"])
+            where = "%s:%d" % (rel, v.line)
+            what = "%s %s = %s in %s" % (short_ty(v), v.decl["n"], src.text(), f.short)
+            extra = {"props": _s2_props(rel)}
+            if is_ref:
+                res.add(key, DISCHARGED, where, what, "bound by reference: calls advance the member itself", func=f.name, extra=extra)
+                continue
+            vid = v.decl["id"]
+            advancing, escapes, written_back = [], False, False
+            src_c = canon(src)
+            for x in f.walk():
+                if x.k in ("CXXMemberCallExpr", "CXXOperatorCallExpr") and x.callee and x.callee.get("usr") in stateful[cls]:
+                    o = x.call_object() if x.k == "CXXMemberCallExpr" else (x.c[1] if len(x.c) > 1 else None)
+                    o = o.strip_all() if o is not None else None
+                    if o is not None and o.k == "DeclRefExpr" and o.decl and o.decl.get("id") == vid:
+                        advancing.append(x)
+                        continue
+                if x.k == "ReturnStmt" and any(y.k == "DeclRefExpr" and y.decl and y.decl.get("id") == vid for y in x.walk()):
+                    escapes = True
+                if x.is_call() and x.k != "CXXMemberCallExpr":
+                    for a in x.call_args():
+                        a0 = a.strip_all()
+                        while a0.k in ("CXXConstructExpr", "MaterializeTemporaryExpr") and len(a0.c) == 1:
+                            a0 = a0.c[0].strip_all()
+                        if a0.k == "DeclRefExpr" and a0.decl and a0.decl.get("id") == vid and not (x.k == "CXXOperatorCallExpr" and x.c and len(x.c) > 1 and x.c[1].strip_all().id == a0.id):
+                            if x.k == "CXXOperatorCallExpr" and x.op == "=":
+                                continue
+                            escapes = True
+                if (x.k == "BinaryOperator" and x.op == "=" and len(x.c) == 2) or (x.k == "CXXOperatorCallExpr" and x.op == "=" and len(x.c) == 3):
+                    l, r = (x.c[0], x.c[1]) if x.k == "BinaryOperator" else (x.c[1], x.c[2])
+                    if canon(l) == src_c and any(y.k == "DeclRefExpr" and y.decl and y.decl.get("id") == vid for y in r.walk()):
+                        written_back = True
+            if not advancing:
+                res.add(key, DISCHARGED, where, what, "the copy is never advanced (read-only snapshot)", func=f.name, extra=extra)
+            elif written_back:
+                res.add(key, DISCHARGED, where, what, "the advanced copy is assigned back to %s" % src.text(), func=f.name, extra=extra)
+            elif escapes:
+                res.add(key, UNMODELLED, where, what, "the advanced copy is returned or handed to another function: a deliberate copy", func=f.name, extra=extra)
+            else:
+                a = advancing[0]
+                res.add(key, VIOLATED, "%s:%d" % (rel, a.line), what,
+                        "%s advances a copy of %s; the copy is dropped at the end of %s and %s keeps the state it had before the "
+                        "call: the next call starts from there again" % (a.text()[:70], src.text(), f.short, src.text()), func=f.name, extra=extra)
+    res.stats["stateful_classes"] = len(stateful)
+    res.stats["locals_naming_state"] = n
+    return res
+
+
+def short_ty(v):
+    return (v.decl.get("dt") or v.type or "?")
+
+
+# =================================================================================================
+# R2 DOMAIN-ACCEPTED: no argument check rejects a value the property quantifies over
+R2_TABLE = [
+    # (property, qualified-name regex of the entry point, parameter, lowest admissible, highest admissible, where the range is stated)
+    ("C20", r"^dsplib::(Compressor|Limiter)::(Compressor|Limiter)$", "threshold", -50, 0, "thresholds -50..0 dB"),
+    ("C20", r"^dsplib::NoiseGate::NoiseGate$", "threshold", -50, 0, "thresholds -50..0 dB"),
+    ("C20", r"^dsplib::Compressor::Compressor$", "ratio", 1, 50, "ratios 1..50"),
+    ("C20", r"^dsplib::(Compressor|Limiter)::(Compressor|Limiter)$", "knee_width", 0, 20, "knee widths 0..20 dB"),
+    ("C20", r"^dsplib::(Compressor|Limiter|NoiseGate)::(Compressor|Limiter|NoiseGate)$", "attack_time", 0, 4, "attack/release 0..4 s"),
+    ("C20", r"^dsplib::(Compressor|Limiter|NoiseGate)::(Compressor|Limiter|NoiseGate)$", "release_time", 0, 4, "attack/release 0..4 s"),
+    ("C20", r"^dsplib::(Compressor|Limiter|NoiseGate)::(Compressor|Limiter|NoiseGate)$", "sample_rate", 8000, 192000, "sample rates 8k..192k"),
+    ("C20", r"^dsplib::Agc::Agc$", "average_len", 1, 1000, "averaging lengths 1..1000"),
+    ("C20", r"^dsplib::Agc::Agc$", "target_level", 0.01, 100, "AGC targets 0.01..100"),
+    ("C12", r"^dsplib::RlsFilter<.*>::RlsFilter$", "forget_factor", 0.9, 1, "forgetting factors 0.9..1"),
+    ("C12", r"^dsplib::RlsFilter<.*>::RlsFilter$", "diag_load", 1e-2, 1e4, "diagonal loads 1e-2..1e4"),
+    ("C12", r"^dsplib::RlsFilter<.*>::RlsFilter$", "filter_len", 2, 64, "filter lengths 2..64"),
+    ("C12", r"^dsplib::LmsFilter<.*>::LmsFilter$", "len", 2, 64, "filter lengths 2..64"),
+    ("C12", r"^dsplib::LmsFilter<.*>::LmsFilter$", "leak", 0, 1, "leakage 1 and < 1"),
+    ("C11", r"^dsplib::window::tukey$", "r", -0.5, 1.5, "tukey r in [-0.5, 1.5]"),
+    ("C11", r"^dsplib::window::kaiser$", "beta", 0, 40, "kaiser beta in [0, 40]"),
+    ("C11", r"^dsplib::window::gauss$", "alpha", 0.5, 6, "gauss alpha in [0.5, 6]"),
+    ("C11", r"^dsplib::window::(hann|hamming|blackman|blackmanharris|gauss|cosine|tukey|kaiser)$", "n", 3, 100000, "all lengths 3..512 and sampled to 10^5"),
+    ("C11", r"^dsplib::fir1$", "n", 2, 2000, "all orders n in 2..256 and sampled to 2000"),
+    ("C11", r"^dsplib::fir1$", "wn", 0.02, 0.98, "cut-offs on a fine grid of (0.02, 0.98)"),
+    ("C08", r"^dsplib::(FIRDecimator)::\1$", "decim", 1, 16, "L, M in 1..16"),
+    ("C08", r"^dsplib::(FIRInterpolator)::\1$", "interp", 1, 16, "L, M in 1..16"),
+    ("C08", r"^dsplib::(FIRRateConverter)::\1$", "interp", 1, 16, "L, M in 1..16"),
+    ("C08", r"^dsplib::(FIRRateConverter)::\1$", "decim", 1, 16, "L, M in 1..16"),
+    ("C14", r"^dsplib::Tuner::Tuner$", "sample_rate", 8, 100000, "Tuner sample rates 8..10^5"),
+    ("C14", r"^dsplib::HilbertFilter::HilbertFilter$", "flen", 31, 401, "HilbertFilter lengths 31..401"),
+    ("C14", r"^dsplib::HilbertFilter::HilbertFilter$", "tw", 0.005, 0.1, "transition widths 0.005..0.1"),
+    ("C16", r"^dsplib::MedianFilter::MedianFilter$", "n", 3, 33, "orders 3..33"),
+]
+NUM_INF = float("inf")
+
+
+def _num_const(n):
+    x = n.strip_all()
+    while x.k in ("CXXFunctionalCastExpr", "CXXStaticCastExpr", "CStyleCastExpr") and x.c:
+        x = x.c[0].strip_all()
+    if x.k == "IntegerLiteral":
+        return float(int(x.get("v")))
+    if x.k == "FloatingLiteral":
+        return float(x.get("v"))
+    if x.k == "UnaryOperator" and x.op in ("-", "+") and x.c:
+        v = _num_const(x.c[0])
+        return None if v is None else (-v if x.op == "-" else v)
+    return None
+
+
+def _is_param_ref(n, name):
+    x = n.strip_all()
+    while x.k in ("CXXFunctionalCastExpr", "CXXStaticCastExpr", "CStyleCastExpr") and x.c:
+        x = x.c[0].strip_all()
+    return x.k == "DeclRefExpr" and x.decl and x.decl.get("k") == "parm" and x.decl.get("n") == name
+
+
+def _surviving_set(c, pol, name):
+    """(lo, lo_open, hi, hi_open, hole) of the values of parameter `name` for which the outcome (c == pol) is possible, or None
+    when the condition is not a comparison of the parameter with a constant"""
+    cmp_ = as_comparison(c)
+    if cmp_ is None:
+        return None
+    l, op, r = cmp_
+    flip = {"<": ">", "<=": ">=", ">": "<", ">=": "<=", "==": "==", "!=": "!="}
+    neg = {"<": ">=", "<=": ">", ">": "<=", ">=": "<", "==": "!=", "!=": "=="}
+    if _is_param_ref(l, name) and _num_const(r) is not None:
+        k = _num_const(r)
+    elif _is_param_ref(r, name) and _num_const(l) is not None:
+        k, op = _num_const(l), flip[op]
+    else:
+        return None
+    if not pol:
+        op = neg[op]
+    return {"<": (-NUM_INF, True, k, True, None), "<=": (-NUM_INF, True, k, False, None), ">": (k, True, NUM_INF, True, None),
+            ">=": (k, False, NUM_INF, True, None), "==": (k, False, k, False, None), "!=": (-NUM_INF, True, NUM_INF, True, k)}[op]
+
+
+def _rejected_point(sv, lo, hi):
+    """a value of [lo, hi] outside the surviving set, or None"""
+    a, ao, b, bo, hole = sv
+    if lo < a or (lo == a and ao):
+        return lo
+    if hi > b or (hi == b and bo):
+        return hi
+    if hole is not None and lo <= hole <= hi:
+        return hole
+    return None
+
+
+def rule_R2(prog, fixture=False):
+    res = RuleResult("R2", "no live, throwing argument check of an entry point rejects a parameter value inside the range the property "
+                           "quantifies over (checks of the parameter against numeric constants, in the entry point or in a function it "
+                           "calls before returning; other forms of check are listed as unmodelled)")
+    n = 0
+    for (prop, rx, pname, lo, hi, src) in R2_TABLE:
+        crx = re.compile(rx)
+        funcs = [f for f in prog.functions.values() if crx.match(f.qn) and not f.get("implicit") and any(p["n"] == pname for p in f.params)
+                 and not f.file.endswith("coverage.cc")]
+        for f in sorted(funcs, key=lambda f: (f.file, f.line, f.name)):
+            n += 1
+            f.blocks
+            key = "R2:%s:%s:%s" % (prop, fkey(f), pname)
+            where = "%s:%d" % (prog.rel(f.file), f.line)
+            what = "%s accepts %s in [%g, %g]" % (f.short, pname, lo, hi)
+            extra = {"props": [prop], "stated_as": src}
+            checks, other = [], []
+            frames = [(f, pname)]
+            # a constructor that forwards the parameter unchanged to another constructor / helper: look there as well (depth 1)
+            for c in f.walk():
+                if c.is_call() and c.callee and c.callee.get("repo") and c.callee.get("usr") in prog.functions:
+                    g = prog.functions[c.callee["usr"]]
+                    for i, a in enumerate(c.call_args()):
+                        if _is_param_ref(a, pname) and i < len(g.params) and g.usr != f.usr:
+                            frames.append((g, g.params[i]["n"]))
+            for (g, gp) in frames:
+                g.blocks
+                if not g.blocks:
+                    continue
+                for fact in g.facts_at_block(g.exit, normal_exit=True):
+                    if fact.belief or not fact.rejects_by_throw:
+                        continue
+                    for (c, p) in atoms_of(fact.cond, fact.pol):
+                        sv = _surviving_set(c, p, gp)
+                        if sv is not None:
+                            checks.append((g, c, p, sv))
+                        elif any(x.k == "DeclRefExpr" and x.decl and x.decl.get("k") == "parm" and x.decl.get("n") == gp for x in c.walk()):
+                            other.append((g, c))
+            bad = None
+            for (g, c, p, sv) in checks:
+                v = _rejected_point(sv, lo, hi)
+                if v is not None:
+                    bad = (g, c, p, v)
+                    break
+            if bad:
+                g, c, p, v = bad
+                res.add(key, VIOLATED, "%s:%d" % (prog.rel(g.file), c.line), what,
+                        "%s = %g is rejected: the check %s must %s for the call to return, but the property ranges over %s"
+                        % (pname, v, c.text(), "hold" if p else "fail", src), func=f.name, extra=extra)
+            elif other and not checks:
+                res.add(key, UNMODELLED, where, what, "checked in a form outside this rule (%s)" % other[0][1].text()[:80], func=f.name, extra=extra)
+            else:
+                res.add(key, DISCHARGED, where, what, "%d constant range check(s) on the parameter, none excludes a value of the range%s" % (
+                    len(checks), "; also checked as %s" % other[0][1].text()[:60] if other else ""), func=f.name, extra=extra)
+    res.stats["entry_point_parameters"] = n
+    if not n and not fixture:
+        res.broken.append("anchor vanished: none of the tabulated entry points / parameters exists")
+    return res
